@@ -22,20 +22,34 @@ def load_all() -> None:
 
 # property -> rule ids (DESIGN.md section 0 / 6)
 PROPERTY_RULES: Dict[str, List[str]] = {
-    "C01": ["STORE-4", "STORE-5", "STORE-6", "STORE-7", "CTRL-1", "CTRL-2", "CTRL-5", "CTRL-9", "CTRL-10", "CTRL-11", "ORD-3"],
-    "C02": ["STORE-5", "TOTAL-3", "TOTAL-4"],
-    "C03": ["CTRL-5", "CTRL-6", "STORE-8", "DISP-6"],
+    "C01": ["STORE-4", "STORE-5", "STORE-6", "STORE-7", "CTRL-1", "CTRL-2", "CTRL-5", "CTRL-9", "CTRL-10", "CTRL-11", "STORE-11", "STORE-12", "ORD-3"],
+    "C02": ["STORE-5", "TOTAL-3", "TOTAL-4", "TOTAL-6"],
+    "C03": ["CTRL-5", "CTRL-6", "STORE-8", "STORE-12", "DISP-6", "TOTAL-6"],
     "C04": ["STORE-6", "STORE-7", "STORE-8", "DISP-9", "NAME-3", "NAME-4"],
-    "C05": ["STORE-1", "STORE-2", "STORE-3", "STORE-4", "ORD-3"],
+    "C05": ["STORE-1", "STORE-2", "STORE-3", "STORE-4", "STORE-11", "STORE-13", "ORD-3"],
     "C06": ["CTRL-1", "CTRL-2", "CTRL-3", "CTRL-4", "CTRL-8", "CTRL-9", "CTRL-10", "CTRL-11", "STORE-5"],
-    "C07": ["DISP-5", "DISP-6", "CTRL-7", "LOWER-6", "LOWER-7", "LOWER-8", "LOWER-9", "STORE-10"],
+    "C07": ["DISP-5", "DISP-6", "CTRL-7", "LOWER-6", "LOWER-7", "LOWER-8", "LOWER-9", "LOWER-10", "STORE-10", "TOTAL-6"],
     "C08": ["LOWER-1", "LOWER-2", "LOWER-3", "LOWER-4", "LOWER-6", "STORE-10"],
-    "C09": ["TABLE-1", "TABLE-2", "TABLE-3", "TABLE-4"],
-    "C10": ["NAME-5", "DISP-6", "LOWER-5", "LOWER-7", "LOWER-8", "LOWER-9"],
+    "C09": ["TABLE-1", "TABLE-2", "TABLE-3", "TABLE-4", "TABLE-5", "ORD-5"],
+    "C10": ["NAME-5", "DISP-6", "LOWER-5", "LOWER-7", "LOWER-8", "LOWER-9", "LOWER-10", "STORE-13"],
     "C11": ["DISP-1", "DISP-2", "DISP-3", "DISP-4"],
-    "C12": ["ORD-1", "ORD-2", "ORD-3"],
-    "C14": ["STORE-3", "STORE-4", "STORE-5", "STORE-9", "CTRL-4", "CTRL-8", "NAME-3", "TOTAL-1", "TOTAL-2", "TOTAL-5"],
-    "C15": ["DISP-8", "DISP-9", "ORD-3", "ORD-4"],
-    "C17": ["DISP-7"],
-    "C18": ["NAME-1", "NAME-2", "NAME-3", "NAME-4"],
+    "C12": ["ORD-1", "ORD-2", "ORD-3", "ORD-5"],
+    "C14": ["STORE-3", "STORE-4", "STORE-5", "STORE-9", "CTRL-4", "CTRL-8", "NAME-3", "TOTAL-1", "TOTAL-2", "TOTAL-5", "STORE-11"],
+    "C15": ["DISP-8", "DISP-9", "ORD-3", "ORD-4", "TOTAL-6"],
+    "C17": ["DISP-7", "ORD-5", "TOTAL-6"],
+    "C18": ["NAME-1", "NAME-2", "NAME-3", "NAME-4", "ORD-5"],
+}
+
+
+# (property, rule) -> module name suffixes whose obligations count for that property
+# (a rule that scans the whole library is narrowed to the code the property is about)
+PROPERTY_SCOPE = {
+    ("C09", "ORD-5"): ("byte_flow", "flow_info", "utils", "basic_block"),
+    ("C17", "ORD-5"): ("rendering",),
+    ("C18", "ORD-5"): ("scfg", "transformations", "ast_transforms", "flow_info"),
+    ("C17", "TOTAL-6"): ("fn:SCFG.__iter__", "fn:ConcealedRegionView", "rendering"),
+    ("C15", "TOTAL-6"): ("fn:SCFGIO.",),
+    ("C02", "TOTAL-6"): ("scfg", "transformations", "scc"),
+    ("C03", "TOTAL-6"): ("scfg", "transformations", "scc"),
+    ("C07", "TOTAL-6"): ("scfg", "transformations", "ast_transforms"),
 }
